@@ -305,7 +305,12 @@ func (n *TrainedNet) WriteBasm() (string, error) {
 		}
 
 		// Processing remaining nodes
+		remaining := make([]string, 0, len(ProcessedNodes))
 		for node := range ProcessedNodes {
+			remaining = append(remaining, node)
+		}
+		sort.Strings(remaining)
+		for _, node := range remaining {
 			result += fmt.Sprintf("%%meta cpdef %s fragcollapse:%s\n", node, node)
 		}
 
